@@ -498,6 +498,10 @@ def check_C08(rep, fl):
     # the audited drop in ShardedMap::try_insert (the entry overwritten by shard.insert) is dead only
     # while the processor inserts exactly the entries the policy has just admitted: premise R06.2
     props_life.check_handle_item_pairing(rep, fl, collisions=False)
+    # ... and the policy admits (answers `added` for) a key it does not track only: SampledLFU::update tells add() whether
+    # the key is tracked, and says `no` only where the cost table has no entry for it (R01.3)
+    import props_policy as _pp
+    props_store.keep_sites(rep, fl, _pp.check_update_tells_tracked, ("false iff untracked",))
     # expired values leave through on_evict: the sweeper reports every entry it takes out, with its value, and
     # examines every key the expiry index has handed over (and forgotten)
     props_store.check_sweeper(rep, fl)
